@@ -15,6 +15,8 @@
   access.rs   -> Evenio/Generated/AccessGen.lean      (`Access::{join, is_compatible}`, `ComponentAccess::{new_true, new_false, var,
                                                       or, matches_archetype, clear_access, collect_conflicts}`, same translator;
                                                       `Evenio/Proofs/AccessGen.lean`)
+  bit_set.rs  -> Evenio/Generated/BitSetGen.lean      (`BitSet::{new, clear, grow_to_block, is_disjoint, len, is_empty, insert, remove,
+                                                      contains}`, `|=`, `^=`, `div_rem`, same translator; `Evenio/Proofs/BitSetGen.lean`)
   handler.rs  -> Evenio/Generated/HandlerConfigGen.lean (the nine setters of `HandlerConfig`, same translator;
                                                       `Evenio/Proofs/HandlerConfigGen.lean`)
   entity.rs   -> Evenio/Generated/EntityGen.lean      (`ReservedEntities::{reserve, spawn_all, refresh}`, `Entities::add_with`,
@@ -686,6 +688,23 @@ def extract_access_funcs():
                         "clear_access", "collect_conflicts"])
 
 
+def extract_bit_set():
+    """bit_set.rs: `BitSet::{new, clear, grow_to_block, is_disjoint, len, is_empty, insert, remove, contains}`, the trait
+    methods `bitor_assign` / `bitxor_assign` and the free function `div_rem` over the hand model's record `BitSet`
+    (`Block = usize` is `BitVec 64`); `Evenio/Proofs/BitSetGen.lean` proves them equal to `Model/BitSet.lean`.  `Iter`,
+    `shrink_to_fit` and `Ord::cmp` (`while` / `loop`) are outside the translator's subset."""
+    return run_rs2lean("src/bit_set.rs",
+                       ["BitSet", "::div_rem", "new", "clear", "grow_to_block", "is_disjoint", "len", "is_empty", "insert",
+                        "remove", "contains", "bitor_assign", "bitxor_assign",
+                        "--namespace", "Evenio.Gen.BitSet",
+                        "--import", "Evenio.Generated.Rs2LeanPrelude", "--import", "Evenio.Model.BitSet",
+                        "--open", "Evenio.Rs2Lean",
+                        "--type", "BitSet=Evenio.BitSet", "--type", "T=Nat", "--bits", "Block=64",
+                        "--prim", "T::index(self) -> usize=_", "--prim", "::BITS: usize=64"],
+                       ["div_rem", "new", "clear", "grow_to_block", "is_disjoint", "len", "is_empty", "insert", "remove",
+                        "contains", "bitor_assign", "bitxor_assign"])
+
+
 def main():
     status_path = None
     if "--status" in sys.argv:
@@ -696,7 +715,8 @@ def main():
                      ("HandlerListGen", extract_funcs), ("SlotMapGen", extract_slot_map),
                      ("SparseMapGen", extract_sparse_map), ("EntityGen", extract_entity),
                      ("HandlerConfigGen", extract_handler_config),
-                     ("AccessGen", extract_access_funcs)]:
+                     ("AccessGen", extract_access_funcs),
+                     ("BitSetGen", extract_bit_set)]:
         target = os.path.join(OUT, name + ".lean")
         fallback = os.path.join(OUT, name + ".lean.fallback")
         old = open(target).read() if os.path.exists(target) else None
